@@ -82,6 +82,8 @@ def _worker_init(modname):
 def _worker_run(case):
     try:
         return _MOD.run_impl(case)
+    except TieBroken as e:  # the source no longer has the shape the adapter relies on: a broken tie, not a crash
+        return {"_tie_broken": str(e)}
     except BaseException as e:  # adapter bug or an exception class the adapter does not expect
         return {"_adapter_crash": f"{type(e).__name__}: {e}", "_tb": traceback.format_exc()[-1500:]}
 
@@ -104,7 +106,7 @@ def evaluate(mod, cases, procs, with_model=True):
     reqs, spans = [], []
     for c, o in zip(cases, obs):
         rs = []
-        if with_model and "_adapter_crash" not in o:
+        if with_model and "_adapter_crash" not in o and "_tie_broken" not in o:
             try:
                 rs = mod.model_requests(c, o) or []
             except Exception as e:  # noqa
@@ -117,6 +119,8 @@ def evaluate(mod, cases, procs, with_model=True):
         rec = {"case": c, "obs": o, "oracle": None, "corr": None}
         if "_adapter_crash" in o:
             rec["oracle"] = "implementation raised through the adapter: " + o["_adapter_crash"]
+        elif "_tie_broken" in o:
+            rec["corr"] = "tie broken in the adapter: " + o["_tie_broken"]
         else:
             rec["oracle"] = mod.oracle(c, o)
             if with_model and n:
@@ -236,32 +240,46 @@ def main(argv=None):
                     corpus.append(c.get("case", c))
     cases = corpus + list(mod.gen_cases(rng, args.tier))
     model_ok = os.path.exists(DRIVER) or ob["ok"]
-    recs = evaluate(mod, cases, args.procs, with_model=model_ok)
-
+    # evaluated in chunks so that multi-million-case tiers do not keep every record in memory:
+    # only counters, a few samples and the failing records survive a chunk
     violations, known_hits, corr_diffs = [], collections.OrderedDict(), []
     tags = collections.Counter()
     distinct_nt = set()
-    for r in recs:
-        o = r["obs"]
-        if "_adapter_crash" not in o:
-            try:
-                for t in mod.tags(r["case"], o):
-                    tags[t] += 1
-                if mod.nontrivial(r["case"], o):
-                    distinct_nt.add(hashlib.sha1(canon(r["case"]).encode()).hexdigest())
-            except Exception:  # noqa
-                tags["_tag_error"] += 1
-        if r["oracle"]:
-            s = sig_of(mod, r)
-            if s is not None and s in open_sigs:
-                known_hits.setdefault(s, r)
-                continue
-            violations.append(r)
-        elif r["corr"]:
-            s = sig_of(mod, r)
-            if s is not None and s in open_sigs:
-                continue  # inside the region of an open finding model and code need not agree
-            corr_diffs.append(r)
+    n_recs = n_agreed = 0
+    sample_recs = []
+    CHUNK = int(os.environ.get("VERIF_CHUNK", "20000"))
+    for ci in range(0, len(cases), CHUNK):
+        recs = evaluate(mod, cases[ci:ci + CHUNK], args.procs, with_model=model_ok)
+        for idx, r in enumerate(recs):
+            gi = ci + idx
+            n_recs += 1
+            if r.get("mout") is not None and not r["corr"]:
+                n_agreed += 1
+            if gi < 2 or (len(corpus) <= gi < len(corpus) + 3) or (len(sample_recs) < 8 and gi % max(1, len(cases) // 6) == 0):
+                sample_recs.append(r)
+            o = r["obs"]
+            if "_adapter_crash" not in o and "_tie_broken" not in o:
+                try:
+                    for t in mod.tags(r["case"], o):
+                        tags[t] += 1
+                    if mod.nontrivial(r["case"], o):
+                        distinct_nt.add(hashlib.sha1(canon(r["case"]).encode()).digest()[:10])
+                except Exception:  # noqa
+                    tags["_tag_error"] += 1
+            if r["oracle"]:
+                s = sig_of(mod, r)
+                if s is not None and s in open_sigs:
+                    known_hits.setdefault(s, r)
+                    continue
+                if len(violations) < 200:
+                    violations.append(r)
+            elif r["corr"]:
+                s = sig_of(mod, r)
+                if s is not None and s in open_sigs:
+                    continue  # inside the region of an open finding model and code need not agree
+                if len(corr_diffs) < 200:
+                    corr_diffs.append(r)
+        del recs
     if corr_diffs:
         broken.append(("corr_broken", corr_diffs[0]["corr"]))
 
@@ -312,7 +330,11 @@ def main(argv=None):
         exit_code = 1
 
     # 5. evidence
-    samples = [{"case": r["case"], "impl": r["obs"], "model": r.get("mout")} for r in recs[len(corpus):len(corpus) + 3]] + [{"case": r["case"], "impl": r["obs"]} for r in recs[:2]]
+    def _clip(x):
+        t = json.dumps(x, ensure_ascii=False, default=str)
+        return x if len(t) < 6000 else {"_clipped": t[:6000]}
+
+    samples = [{"case": _clip(r["case"]), "impl": _clip(r["obs"]), "model": _clip(r.get("mout"))} for r in sample_recs]
     cov = {
         "obligations": ob["obligations"],
         "discharged": ob["discharged"],
@@ -322,12 +344,12 @@ def main(argv=None):
         "axioms": ob["axioms"],
         "modules": ob.get("modules"),
         "leanchecker_ok": lc,
-        "evaluations": len(recs) + searched,
+        "evaluations": n_recs + searched,
         "distinct_nontrivial": len(distinct_nt),
         "rule": mod.RULE,
-        "traces_validated_against_impl": sum(1 for r in recs if r.get("mout") is not None and not r["corr"]),
+        "traces_validated_against_impl": n_agreed,
         "corpus_cases": len(corpus),
-        "samples": samples[:5],
+        "samples": samples[:8],
         "distribution": dict(tags.most_common(60)),
         "translator": tinfo,
         "broken": [b[0] + ": " + b[1] for b in broken],
@@ -350,7 +372,7 @@ def main(argv=None):
         json.dump(ev, f, indent=1, ensure_ascii=False, default=str)
     for l in lines:
         print(l, flush=True)
-    print(f"{prop} tier={args.tier} seed={seed}: obligations {ob['discharged']}/{ob['obligations']}, cases {len(recs)} (+{searched} searched), nontrivial {len(distinct_nt)}, model-agreed {cov['traces_validated_against_impl']}, known {len(known_hits)}, {'FAIL' if exit_code else 'ok'} in {ev['wall_s']}s", flush=True)
+    print(f"{prop} tier={args.tier} seed={seed}: obligations {ob['discharged']}/{ob['obligations']}, cases {n_recs} (+{searched} searched), nontrivial {len(distinct_nt)}, model-agreed {cov['traces_validated_against_impl']}, known {len(known_hits)}, {'FAIL' if exit_code else 'ok'} in {ev['wall_s']}s", flush=True)
     return exit_code
 
 
